@@ -314,6 +314,19 @@ func c17FloatFamily(tier string) []Operand {
 		out = append(out, s.Op())
 	}
 	out = append(out, Dense(3, 4)...)
+	// coefficients around 2^53 and 2^54 (the widest integers a float64 holds exactly) x small exponents: where
+	// a "multiply an exact integer by an exact power of ten" shortcut would round twice
+	for _, base := range []*big.Int{pow2(53), pow2(54), pow2(52), bigOf("9007199254740993"), bigOf("18014398509481983")} {
+		for k := int64(-40); k <= 40; k++ {
+			c := new(big.Int).Add(base, big.NewInt(k))
+			for ex := int32(-25); ex <= 25; ex++ {
+				if tier != "thorough" && (ex%3 != 0 && ex != -1 && ex != 1 && ex != 22 && ex != -22 && ex != 23) {
+					continue
+				}
+				out = append(out, FinBig(c, ex, k%2 == 0))
+			}
+		}
+	}
 	return out
 }
 
